@@ -6,14 +6,29 @@ import sys, os, subprocess, tempfile, shutil, json, re
 ROOT = os.path.dirname(os.path.dirname(os.path.abspath(__file__)))
 ALL = [f"C{i:02d}" for i in range(1, 21)]
 
+SEED_BASE = "1042e09"   # /repo commit the sub-agents' worktrees were created from (seeds are diffs against it)
+
+def make_repo(repo, patch):
+    """scratch copy of /repo's working tree with `patch` applied; if the patch no longer applies to the current tree (a later fix: commit touched
+    the same lines) the copy is taken from the commit the seed was written against. Returns None or an error string."""
+    import subprocess, shutil
+    shutil.rmtree(repo, ignore_errors=True)
+    subprocess.check_call(["rsync", "-a", "--exclude", "target", "--exclude", ".git", "/repo/", repo + "/"])
+    if not patch: return None
+    p = subprocess.run(["patch", "-p1", "-s", "--dry-run", "-i", patch], cwd=repo, capture_output=True, text=True)
+    if p.returncode != 0:
+        shutil.rmtree(repo, ignore_errors=True); os.makedirs(repo)
+        subprocess.check_call(f"git -C /repo archive {SEED_BASE} | tar -x -C {repo}", shell=True)
+        print(f"note: {patch} does not apply to the current tree; using base commit {SEED_BASE}")
+    p = subprocess.run(["patch", "-p1", "-s", "-i", patch], cwd=repo, capture_output=True, text=True)
+    return None if p.returncode == 0 else "patch does not apply: " + (p.stdout + p.stderr)[-300:]
+
 def run(patch, props, keep=False, tier="quick"):
     d = tempfile.mkdtemp(prefix="seedrun-")
     try:
         repo = os.path.join(d, "repo")
-        subprocess.check_call(["rsync", "-a", "--exclude", "target", "--exclude", ".git", "/repo/", repo + "/"])
-        if patch:
-            p = subprocess.run(["patch", "-p1", "-s", "-i", os.path.abspath(patch)], cwd=repo, capture_output=True, text=True)
-            if p.returncode != 0: return dict(error="patch does not apply: " + (p.stdout + p.stderr)[-300:])
+        err = make_repo(repo, os.path.abspath(patch) if patch else None)
+        if err: return dict(error=err)
         env = dict(os.environ, VERIF_REPO=repo, VERIF_EVIDENCE_DIR=os.path.join(d, "evidence"), VERIF_TIER=tier)
         os.makedirs(env["VERIF_EVIDENCE_DIR"], exist_ok=True)
         procs = {c: subprocess.Popen([os.path.join(ROOT, "check"), c], env=env, stdout=subprocess.PIPE, stderr=subprocess.STDOUT, text=True) for c in props}
